@@ -371,7 +371,7 @@ func coordinator(c *Check, tier string) int {
 		trans += st.Transitions
 		execs += st.Execs
 		horizon += st.HorizonHits
-		if st.Conflicting > 0 {
+		if st.Conflicting > 0 || st.MaxThreads <= 1 {
 			outcomes += len(st.Outcomes)
 		}
 		if st.Truncated {
@@ -523,6 +523,7 @@ func main() {
 		var k, n int
 		fmt.Sscanf(os.Args[4], "%d/%d", &k, &n)
 		runWorker(c, tier, k, n, os.Args[6])
+		profStop()
 		return
 	}
 	os.Exit(coordinator(c, tier))
